@@ -397,6 +397,14 @@ def check(ctx: Ctx):
 
     _col.check_instance_containers(ctx, ("LengthScaleTracker", "EmulsionTimeCourse"), rule="OWN")
     check_super_forwarding(ctx)
+    from ..rules import support, spectrum
+
+    # both paths build their time course through the same constructor/append: it must keep the given order and its own list of times
+    support.compose(ctx, _col.check_fresh_derivations, keep=("FRESH",), site_filter=lambda s: "EmulsionTimeCourse.__init__" in s)
+    # the recorded length scale is written as JSON: it must be a double whatever the field's dtype
+    spectrum.check_accumulator_dtype(ctx, ("droplets.image_analysis.get_structure_factor", "droplets.image_analysis.get_length_scale"))
+    ctx.expect("DTYPE", 2)
+    ctx.expect("FRESH", 2)
     ctx.expect("PARMAP", 6)
     ctx.expect("FORWARD", 15)
     ctx.expect("PIPE", 7)
